@@ -13,17 +13,17 @@ CHECKS = {
 }
 CHECKS["C09"] = ("E2", "deterministic simulation: cooperative seeded scheduler (random walk / PCT) deciding the runner at every atomic access, lock and Gosched of the leap array (overlay import substitution), virtual clock ticks under the property's stall precondition; history oracle with event sequence numbers; ddmin-minimised literal schedule replay",
   "exploration",
-  "2-3 simulated callers (thorough: up to 12) each doing 1-2 AddCount / Count / Values / view GetSum operations around a bucket boundary on a pre-filled array; the scheduler interleaves them at every atomic access of currentBucketOfTime, ResetBucketTo and MetricBucket; oracles over the recorded history: no read exceeds what was recorded in or after its window (no invention, duplication or expired data), at quiescence no bucket holds more than the amounts whose timestamps select it, buckets whose rollover nobody overlapped are exact, every caller terminates within the step budget. Sampled interleavings (hundreds of thousands per quick run), not all.",
+  "2-3 simulated callers (thorough: up to 12) each doing 1-2 AddCount / Count / Values / view GetSum operations around a bucket boundary on a pre-filled array; the scheduler interleaves them at every atomic access of currentBucketOfTime, ResetBucketTo and MetricBucket; oracles over the recorded history: no read exceeds what was recorded in or after its window (no invention, duplication or expired data), at quiescence no bucket holds more than the amounts whose timestamps select it, buckets whose rollover nobody overlapped are exact, contended buckets hold at least what was recorded for their cycle and at most that plus concurrent amounts of an earlier cycle of the slot, every caller terminates within the step budget. Sampled interleavings (hundreds of thousands per quick run), not all.",
   "Trusted: the cooperative scheduler and shims (sim/), that yield points before each atomic/lock op are the only relevant preemption points (sequential consistency of Go atomics), the history oracle. Real goroutines, one running at a time.", "DESIGN.md §3 C09")
 CHECKS["C02"] = ("E1+E2", "deterministic simulation: seeded request/tick histories under a virtual clock against an exact admit-iff-W+b<=T reference (per rule, aligned windows incl. standalone and associated statistics); 25% of runs interleave 2-4 callers with the seeded scheduler at every atomic access between rule check and statistic record and check the k-1 excess bound and absence of unjustifiable rejections",
   "exploration",
   "Every decision, TriggeredRule and TriggeredValue of every request is compared with the reference in E1 runs (both directions: no over-admission, no spurious rejection, later rejections in the chain consume no quota); E2 runs check the stated (k-1)*max-batch bound per aligned window using only facts certain from invoke/return order. Sampling of configurations, histories and schedules.",
   "Trusted: reference model of rule statistics (DESIGN.md A.1, assumption on the bucket count of private windows stated in evidence), virtual clock seam, cooperative scheduler.", "DESIGN.md §3 C02")
-CHECKS["C04"] = ("E1+E2", "deterministic simulation: seeded entry/exit histories (any exit order, batches up to 2^32-1, exits with errors) against an exact live-count model; 30% of runs interleave 2-4 callers under the seeded scheduler and check the N+(k-1) bound and zero concurrency at quiescence",
+CHECKS["C04"] = ("E1+E2", "deterministic simulation: seeded entry/exit histories (any exit order, batches up to 2^32-1, exits with errors) against an exact live-count model; injected clock fault: the wall clock steps back between operations; 30% of runs interleave 2-4 callers (thorough: up to 7) under the seeded scheduler and check the N+(k-1) bound, the exact gauge and the exact next decision at the quiescent point with entries still live, and zero concurrency at the end",
   "exploration",
-  "E1: admit iff for every rule live+b<=N in unbounded integers, TriggeredRule/Value, gauge==live after every operation, capacity reusable after Exit. E2: externally observed in-flight count never above N+(k-1). Sampling.",
+  "E1: admit iff for every rule live+b<=N in unbounded integers, TriggeredRule/Value, gauge==live after every operation, capacity reusable after Exit. E2: externally observed in-flight count never above N+(k-1); after the concurrent phase gauge == live entries and a further request is decided exactly. Sampling.",
   "Trusted: live-count model, scheduler shims; batch>=1.", "DESIGN.md §3 C04")
-CHECKS["C01"] = ("E1+E2", "deterministic simulation with fault injection: seeded Entry/TraceError/Exit histories incl. repeated and late calls on a chain = default slots + scripted prepare/rule-check slots (block / panic / nil on cue) + recording stat slot; injected faults: slot panics, rule-evaluation panics via un-hashable arguments, seeded pool reuse (SimPool), clock jumps; tally model checked after every operation; 25% of runs under the seeded scheduler with 2-4 callers",
+CHECKS["C01"] = ("E1+E2", "deterministic simulation with fault injection: seeded Entry/TraceError/Exit histories incl. repeated and late calls on a chain = default slots + scripted prepare/rule-check slots (block / panic / nil on cue) + recording stat slot; injected faults: slot panics, rule-evaluation panics via un-hashable arguments, seeded pool reuse (SimPool), clock jumps; tally model checked after every operation; 25% of runs under the seeded scheduler with 2-4 callers (thorough: up to 7), who also exit entries owned by other callers (concurrent repeated Exit)",
   "exploration",
   "After every operation: one outcome per Entry, exactly one pass|block callback with the right resource/batch, exactly one completion per passed entry with its own last error and rt, nothing for blocked or late calls, live entries keep their own Err()/Args, node and inbound concurrency equal the live count (never negative), windowed sums equal the reference window of the tallied events. Sampling of histories, pool decisions and schedules.",
   "Trusted: tally model + window model, SimPool as a faithful sync.Pool behaviour subset, scheduler. One open finding is tolerated by adapting the model (panic-passed requests are uncounted).", "DESIGN.md §3 C01")
@@ -31,9 +31,9 @@ CHECKS["C03"] = ("E1", "deterministic simulation: seeded histories of request st
   "exploration",
   "Every Entry result (pass / circuit-breaking block + blocking rule) equals the reference machine's for 1-2 breakers per resource over all strategies and parameter ranges incl. stragglers and probes blocked by a second breaker; after every operation the listener log equals the reference transition list. Sampling.",
   "Trusted: model/breaker.go (written from DESIGN.md A.2), virtual clock. Ratio decisions within 1e-7 of the threshold end the run as ambiguous.", "DESIGN.md §3 C03")
-CHECKS["C06"] = ("E1+E2", "deterministic simulation: seeded entry/exit histories over a small value alphabet with seeded pool reuse, exact per-value live-count model, per-value counters read after every operation; 30% of runs under the seeded scheduler with 2-4 callers",
+CHECKS["C06"] = ("E1+E2", "deterministic simulation: seeded entry/exit histories over a small value alphabet with seeded pool reuse, exact per-value live-count model, per-value counters read after every operation; injected clock fault: backward steps; 30% of runs under the seeded scheduler with 2-4 callers (thorough: up to 7)",
   "exploration",
-  "E1: admit iff for every rule live(v)<T(v) (specific or general), blocked => hot-parameter block with that rule, per-value counter == live entries after every op, live entries keep their arguments, counters return to zero. E2: per-value in-flight <= T+(k-1), counters zero at quiescence. Sampling.",
+  "E1: admit iff for every rule live(v)<T(v) (specific or general), blocked => hot-parameter block with that rule, per-value counter == live entries after every op, live entries keep their arguments, counters return to zero. E2: per-value in-flight <= T+(k-1); after the concurrent phase every counter == live entries of its value (entries still live), counters zero at the end. Sampling.",
   "Trusted: live-count model and argument selection rule (DESIGN.md A.4); overlay-only read accessor for the counters.", "DESIGN.md §3 C06")
 CHECKS["C12"] = ("E2", "deterministic simulation: seeded scheduler interleaving 2-3 callers at every atomic access of TryPass / OnRequestComplete / transition helpers with clock ticks around the retry deadline, after a sequential prelude that puts the breaker fresh / near trip / open at its deadline / half-open; interval-sound history oracles over event sequence numbers; literal schedule replay",
   "exploration",
@@ -47,23 +47,23 @@ CHECKS["C05"] = ("E1", "deterministic simulation: seeded multi-value arrival his
   "exploration",
   "Reject mode: envelope since first seen, 2(T+burst) per duration, idle values always granted up to their threshold; throttling: spacing floor(b*D/T) ms and wait strictly below the queueing limit; specific items, index / negative index / attachment-key selection, requests without the argument never limited, capacity below the number of values (then only termination / no panic). Sampling.",
   "Trusted: envelopes as stated in the property, argument selection rule (DESIGN.md A.4). Independence asserted only while the configured capacity was never exceeded.", "DESIGN.md §3 C05")
-CHECKS["C07"] = ("E1", "deterministic simulation with injected system readings: seeded inbound/outbound traffic histories, completions with virtual durations, load / CPU readings injected through the existing setters; the reference predicate is evaluated on aggregates of the tallied inbound events",
+CHECKS["C07"] = ("E1", "deterministic simulation with injected system readings: seeded inbound/outbound traffic histories, completions with virtual durations, load / CPU readings injected through the existing setters, single-field edits of loaded rules followed by a reload, requests that stay in flight beyond the statistic's maximum response time; the reference predicate is evaluated on aggregates of the tallied inbound events",
   "exploration",
   "Outbound never system-blocked; inbound blocked iff some loaded rule is violated by the reference aggregates (aligned-window pass QPS, truncated average RT with an ambiguity band, live inbound count, injected load/CPU, BBR capacity = peak per-bucket completion rate x minimum RT). Sampling of rule sets, readings and histories.",
   "Trusted: window model, predicate as stated; BBR with <=1 in flight and averages within the truncation band are ambiguous (either decision accepted, counted).", "DESIGN.md §3 C07")
 CHECKS["C11"] = ("E1", "deterministic simulation: seeded demand shapes in virtual seconds (idle / saturating / steady single-token phases) for warm-up rules and injected memory readings for memory-adaptive rules; envelope oracles on admitted counts per aligned window and on the effective threshold",
   "exploration",
-  "Warm-up: rate never above the threshold in any aligned window, cold start bounded by ceil(T/coldFactor)+1 after a long idle, full threshold reached after a long saturation, steady single-token demand admitted, effective threshold finite, >=0, <=T. Memory-adaptive: end points exact, monotone in between, fresh-window capacity == floor(effective). Sampling.",
+  "Warm-up: rate never above the threshold in any aligned window, cold start bounded by ceil(T/coldFactor)+1 after a long idle, full threshold reached after a long saturation, steady single-token demand admitted, effective threshold finite, >=0, <=T. Memory-adaptive: end points exact, monotone in between, fresh-window capacity == floor(effective); 30% of the memory cases at production magnitudes (thresholds to 2^53, marks GiB-PiB). Sampling.",
   "Trusted: envelope constants chosen from the property text (generous slack); overlay-only accessor for the effective threshold. One open finding (no cool-down when threshold < cold factor) tolerated.", "DESIGN.md §3 C11")
 CHECKS["C13"] = ("E1", "deterministic simulation (thin): seeded histories of LoadRules / LoadRulesOfResource / Clear* / identical reloads over the six rule modules with valid, field-wise invalid and nil rules, checked call by call against a rule-set reference model through getters, overlay read accessors of the enforced controllers and probe traffic under a virtual clock; fault injection = invalid and nil rules; ddmin replay",
   "exploration",
-  "After every call: no panic, getters == model (per resource, in order), enforced controllers / breakers / outlier rule == model, probes blocked by exactly the first module holding an enforced blocking rule (invalid variants are built to block if wrongly enforced), identical reload reports unchanged, a reload changing one behaviour-neutral field still replaces the rule. Sampling of histories.",
-  "Trusted: rule-set model; rules compared by content class (an unchanged rule may keep the object of an earlier load). Domain restrictions stated in evidence (per-resource loads carry only that resource; one outlier rule per resource).", "DESIGN.md §3 C13")
-CHECKS["C14"] = ("E1", "deterministic simulation, metamorphic: one seeded traffic history is executed twice under the virtual clock after a full reset of process-global state, once with reloads inserted that keep rule R field-for-field identical (fresh object) while adding / removing / modifying / reordering the other rules, once without; decision traces (admit / block type / requested wait) must be equal; second oracle: a modified private-window rule keeps its counts",
+  "After every call: no panic, getters == model (per resource, in order), enforced controllers / breakers / outlier rule == model, probes blocked by exactly the first module holding an enforced blocking rule (invalid variants are built to block if wrongly enforced), identical reload reports unchanged, a reload changing one field (also one the rule id does not show: edited copies with the same id; families of rules that differ in exactly one field of their strategy) still replaces the rule - reported and enforced rules are compared field by field. Sampling of histories.",
+  "Trusted: rule-set model; rules compared field by field except the id's table index (an unchanged rule may keep the object of an earlier load); fields the rule's strategy does not use are not varied. Domain restrictions stated in evidence (per-resource loads carry only that resource; one outlier rule per resource).", "DESIGN.md §3 C13")
+CHECKS["C14"] = ("E1", "deterministic simulation, metamorphic: one seeded traffic history is executed twice under the virtual clock after a full reset of process-global state, once with reloads inserted that keep rule R field-for-field identical (fresh object) while adding / removing / modifying / reordering the other rules (compound reloads of 1-3 edits; R listed once or twice), once without; decision traces (admit / block type / requested wait) must be equal; second oracle: a modified private-window rule keeps its counts",
   "exploration",
   "Covers flow throttling (queue position), warm-up (tokens), private-window reject rule, circuit breaker (state, deadline), hotspot QPS and concurrency counters, whole-set and per-resource reload paths. Sampling of histories, reload positions and edits.",
-  "Trusted: full reset between the two runs (harness.Reset + overlay reset of the inbound node); the other rules never block so that R alone governs the trace.", "DESIGN.md §3 C14")
-CHECKS["C16"] = ("E1", "deterministic simulation with fault injection: seeded chains of scripted recording slots (colliding order values; pass / nil / block via fresh or pooled result / panic per entry), exit handlers that panic, entries exited in any order under a seeded pool policy; call-log and outcome model checked after every operation",
+  "One open finding tolerated (a modified rule competes with other non-equal rules for old statistics in list order). Trusted: full reset between the two runs (harness.Reset + overlay reset of the inbound node); the other rules never block so that R alone governs the trace.", "DESIGN.md §3 C14")
+CHECKS["C16"] = ("E1", "deterministic simulation with fault injection: seeded chains of scripted recording slots (colliding order values; pass / nil / block via a fresh result or the pooled result reset in place with full or partial cause / panic per entry; chains of up to 40 slots of a kind), exit handlers that panic, entries exited in any order under a seeded pool policy; call-log and outcome model checked after every operation",
   "exploration",
   "Call order == stable sort by order per kind, prepare -> check -> statistic, stop at the first block; returned block error is the first blocker's; without panics each statistic slot is told the outcome once and the completion iff passed; no panic escapes Entry or Exit and a panicking request is admitted; returned *BlockError objects keep their fields while later entries recycle pooled objects. Sampling of chains and histories.",
   "Trusted: the scripted slots and the call log (harness code); SimPool as a faithful sync.Pool behaviour subset.", "DESIGN.md §3 C16")
